@@ -137,7 +137,17 @@ func genPlanC01(t *rapid.T) Plan {
 			}
 			p.Ops = append(p.Ops, op)
 		case k < 14:
-			p.Ops = append(p.Ops, genPub(t, &p, false))
+			op := genPub(t, &p, false)
+			if rapid.IntRange(0, 7).Draw(t, "retainflag") == 0 {
+				// the retain flag does not change who receives the message now (what new
+				// subscriptions get later is C08's business); an empty payload with the
+				// flag clears a retained message that may not even exist
+				op.Retain = true
+				if rapid.Bool().Draw(t, "retain-empty") {
+					op.Size = 0
+				}
+			}
+			p.Ops = append(p.Ops, op)
 		case k == 14:
 			op := Op{K: "burst", C: rapid.IntRange(0, p.NClients-1).Draw(t, "bc"), Topic: genName(t), PQ: byte(rapid.IntRange(0, 2).Draw(t, "bq"))}
 			limit := p.BufSize - 8192 - 64
